@@ -669,6 +669,9 @@ theorem tstep_inv (s : TSt) (e : Ev) (s' : TSt) (h : TInv s) (hs : tstep s e = .
               · cases hs
               · simp only [Except.ok.injEq] at hs; subst hs
                 exact TInv.append h p r e' ha (by simpa using hin) (by simpa using hm) hna
+  | appendPlain i p r =>
+    simp only [tstep] at hs
+    cases hs
   | ended i c =>
     simp only [tstep] at hs
     split at hs
